@@ -1200,11 +1200,20 @@ def c10_k7(ctx):
         ebg = ExprBuilder(ctx.prog, g)
         for b in g.live_blocks():
             for s in g.blocks[b]["stmts"]:
-                if s["k"] != "assign" or not s["place"]["proj"] or s["place"]["proj"][-1].get("k") != "field" or s["place"]["proj"][-1].get("idx") != 1:
+                if s["k"] != "assign" or not s["place"]["proj"]:
+                    continue
+                wp = s["place"]
+                if len(wp["proj"]) == 1 and wp["proj"][0].get("k") == "deref":
+                    # `*send_flag = pending` with `send_flag` bound to `&mut x.1` by a pattern
+                    from common import ref_target
+                    tp = ref_target(g, wp["local"])
+                    if tp is not None and tp["proj"]:
+                        wp = {"local": tp["local"], "proj": tp["proj"], "ty": wp.get("ty")}
+                if wp["proj"][-1].get("k") != "field" or wp["proj"][-1].get("idx") != 1:
                     continue
                 # the pending mark: field 1 of the (EndOfFile, bool) held in self.eof, written directly or through as_mut()
-                base = dict(s["place"])
-                base["proj"] = s["place"]["proj"][:-1]
+                base = dict(wp)
+                base["proj"] = wp["proj"][:-1]
                 bt = expr_str(ebg.place(base)) if base["proj"] else expr_str(ebg.local(base["local"]))
                 mv = re.match(r"^(\w+)(\.\*)?$", bt)
                 if mv:
